@@ -12,3 +12,12 @@ PROPS["C05"] = {
     "bounded": [],
     "assumptions": [],
 }
+
+PROPS["C17"] = {
+    "level": "proof",
+    "contracts": [
+        ("contracts.bytecode", "xdis.bytecode:_parse_varint"),
+        ("contracts.bytecode", "xdis.bytecode:parse_exception_table"),
+    ],
+    "assumptions": [],
+}
